@@ -35,6 +35,11 @@ MARKS = ("blocks_high", "lines_high", "syslines_high")
 SLACK = 2
 
 
+# the channel capacity at which finding F9a (consumer_lag_exceeds_drop_distance) was recorded in known_findings.d/C17.json:
+# the recorded class is "drop distance < RECORDED_CAP + 2"; a deeper channel does not widen the recorded class
+RECORDED_CAP = 5
+
+
 def scrape_cap():
     src = open(os.path.join(vlib.REPO, "src", "bin", "s4.rs")).read()
     m = re.search(r"const\s+CHANNEL_CAPACITY\s*:\s*usize\s*=\s*(\d+)\s*;", src)
@@ -838,7 +843,7 @@ def run(ctx):
             c_rejected += 1
             continue
         yearless = nt == "yearless"
-        in_lag = U.consumer_lag_exceeds_drop_distance(lay, cf["bs"], H)
+        in_lag = U.consumer_lag_exceeds_drop_distance(lay, cf["bs"], min(H, RECORDED_CAP + 2))
         in_edge = U.line_ends_on_block_edge(lay, cf["bs"], cf["container"])
         dom = "yearless" if yearless else (("lag" if in_lag else "") + ("edge" if in_edge else "") or "outside_known_classes")
         domain_hist[dom] = domain_hist.get(dom, 0) + 1
@@ -889,6 +894,73 @@ def run(ctx):
 
 
     mark_phase("C")
+    # ---------------------------------------------------------------- C-slow: outside the recorded F9a class a slow consumer changes nothing
+    # Finding F9a was recorded with the channel capacity RECORDED_CAP: a release fails only when drop_data_try
+    # reaches a message fewer than RECORDED_CAP + 2 messages after it was sent.  Files whose drop distance is
+    # larger (and that have no line ending on a block edge) are OUTSIDE every recorded class: with the consumer
+    # of stdout delayed as far as the channel allows, their marks must stay under the model's marks at lag
+    # RECORDED_CAP + 2 and must not grow with the file.  (A deeper channel lets the consumer fall further behind
+    # than the drop distance of these files: that retention is not the recorded finding.)
+    H_rec = RECORDED_CAP + 2
+    sconfigs = []
+    for i in range(6 if quick else 16):
+        sbs = [512, 1024, 2048, 4096][i % 4]
+        cont = "plain" if i % 3 != 2 else "gz"
+        for _try in range(40):
+            # uniform-ish short lines: between 10 and 60 messages inside the two blocks drop_data_try stays behind
+            per2 = rng.randrange(10, 60)
+            ln = max(24, 2 * sbs // per2)
+            base = [(ln + rng.randrange(0, 3), True) for _ in range(max(24, 6 * sbs // ln))]
+            cf = dict(kind="slowsafe", bs=sbs, container=cont, base=base, avoid_edges=True)
+            big = dict(cf, mult=mults[-1])
+            lay = layout_of(big)
+            d = U.min_drop_distance(lay, sbs)
+            if d is not None and d >= H_rec and not U.line_ends_on_block_edge(lay, sbs, cont):
+                sconfigs.append(cf)
+                break
+    sjobs = [(ci, mu, dict(cf, mult=mu)) for ci, cf in enumerate(sconfigs) for mu in mults]
+
+    def sjob(j):
+        ci, mu, c = j
+        return run_bin(root, c, "plan", 450000 + ci * 1000 + mu, plan="seed=%d,max_us=0,poll_us=200" % (ctx.seed + ci))
+
+    with ThreadPoolExecutor(max_workers=max(2, vlib.NCPU // 2)) as ex:
+        sres = list(ex.map(sjob, sjobs))
+    cs_cmp = cs_bad = cs_grow = 0
+    cs_err_max = 0
+    for ci, cf in enumerate(sconfigs):
+        rs = [r for (cj, mu, c), r in zip(sjobs, sres) if cj == ci]
+        desc0 = dict(kind=cf["kind"], bs=cf["bs"], container=cf["container"], avoid_edges=True, plan="max_us=0,poll_us=200",
+                     recorded_channel_capacity=RECORDED_CAP, channel_capacity_in_source=cap)
+        if any(r is None or r["printed_syslines"] != r["messages"] for r in rs):
+            ctx.failure(dict(desc0, base=cf["base"][:200], mults=mults), "a run that ends with a summary", "run failed / hang", [])
+            continue
+        bad = False
+        for mu, r in zip(mults, rs):
+            cs_cmp += 1
+            cs_err_max = max(cs_err_max, r["drop_sysline_err"])
+            hi = U.sim_cur(layout_of(dict(cf, mult=mu)), cf["bs"], cf["container"] != "plain", H_rec)
+            got = tuple(r[k] for k in MARKS)
+            if (not all(g <= h for g, h in zip(got, hi[:3])) or r["drop_sysline_err"] > hi[3]) and not bad:
+                bad = True
+                cs_bad += 1
+                ctx.failure(dict(desc0, mult=mu, base=cf["base"], prefix=prefix_of(cf), drop_sysline_err=r["drop_sysline_err"]),
+                            "marks %s at most the model's marks at consumer lag %d = %s (file outside every recorded class: drop distance %s >= %d, no block edge)"
+                            % (MARKS, H_rec, list(hi[:3]), U.min_drop_distance(layout_of(dict(cf, mult=mu)), cf["bs"]), H_rec),
+                            "marks %s, drop_sysline Err %d" % (list(got), r["drop_sysline_err"]), [])
+        for mi, mk in enumerate(MARKS):
+            vals = [r[mk] for r in rs]
+            if grows(vals):
+                cs_grow += 1
+                ctx.failure(dict(desc0, mults=mults, mark=mk, base=cf["base"], prefix=prefix_of(cf),
+                                 drop_sysline_err=[r["drop_sysline_err"] for r in rs]),
+                            "%s independent of the file size (slow consumer, file outside every recorded class)" % mk,
+                            "grows: %s at sizes x%s" % (vals, mults), [])
+    if cap is not None and cap != RECORDED_CAP and cs_bad == 0 and cs_grow == 0:
+        if cap > RECORDED_CAP:
+            ctx.obligation_broken("translator", "CHANNEL_CAPACITY in src/bin/s4.rs is %d, finding F9a (consumer_lag_exceeds_drop_distance) was recorded at %d: "
+                                  "the consumer may fall further behind than the recorded class allows" % (cap, RECORDED_CAP), "")
+    mark_phase("C-slow")
     # ---------------------------------------------------------------- C, windowed: growth under a window
     # plain files with -a at 10 / 50 / 90 %; and -b, -a -b, and windows on streamed files
     wconfigs = []
@@ -960,7 +1032,7 @@ def run(ctx):
             cw_rejected += 1
             continue
         big = layout_of(cs[-1])
-        in_lag = U.consumer_lag_exceeds_drop_distance(big, cf["bs"], H)
+        in_lag = U.consumer_lag_exceeds_drop_distance(big, cf["bs"], min(H, RECORDED_CAP + 2))
         in_edge = U.line_ends_on_block_edge(big, cf["bs"], cf["container"])
         in_f9d = window_on_streamed_file(cs[-1])        # -a on a streamed file: the linear search stores everything before A
         if not (in_lag or in_edge or in_f9d):
@@ -1038,7 +1110,9 @@ def run(ctx):
                       impl_lagfree=[s[k] for k in MARKS] if s else None, model_nolag=m["lo"], model_maxlag=m["hi"],
                       impl_free=[s2[k] for k in MARKS] if s2 else None)
                  for c, m, s, (s2, _p) in list(zip(bcases, model, r1, r2))[:3] + list(zip(bcases, model, r1, r2))[-4:-2]],
-        channel_capacity=cap, H=H, window_constants_scraped=list(wc),
+        channel_capacity=cap, H=H, recorded_channel_capacity=RECORDED_CAP, window_constants_scraped=list(wc),
+        Cslow_configs=len(sconfigs), Cslow_runs_compared=cs_cmp, Cslow_above_model_at_recorded_lag=cs_bad, Cslow_growing=cs_grow,
+        Cslow_drop_sysline_err_max=cs_err_max,
         B1_exact_compared=b1_cmp, B1_disagreements=b1_dis, B1_rejected_by_blockzero_gate=b1_rejected, B1_not_lagfree=b1_lagged,
         B2_interval_compared=b2_cmp, B2_outside_interval=b2_dis, B2_strictly_above_nolag=b2_strict_inside,
         traces_validated_against_impl=b1_cmp + b2_cmp,
@@ -1124,7 +1198,7 @@ def replay(ctx, path):
                                                             avoid_edges=c.get("avoid_edges", False), prefix=c.get("prefix", PREFIX)),
                                                        c.get("after_frac"), c.get("before_frac"))):
                 classes.append("window_on_streamed_file")
-            if U.consumer_lag_exceeds_drop_distance(lay, c["bs"], H) and (mk == "lines_high" or (mk == "blocks_high" and c["container"] == "plain")):
+            if U.consumer_lag_exceeds_drop_distance(lay, c["bs"], min(H, RECORDED_CAP + 2)) and (mk == "lines_high" or (mk == "blocks_high" and c["container"] == "plain")):
                 classes.append("consumer_lag_exceeds_drop_distance")
             if U.line_ends_on_block_edge(lay, c["bs"], c["container"]) and mk == "blocks_high":
                 classes.append("line_ends_on_block_edge")
